@@ -53,7 +53,8 @@ def base_scenario(r, job_times: List[float]) -> Dict[str, Any]:
     jobs = [{"t": t, "steps": r.choice([0, 0, 1, 2]), "fail": r.random() < 0.12, "schedule": _children(r)}
             for t in job_times]
     return {"max_concurrent": r.choice([1, 2, 3, 50]), "sources": sources, "derived": 0, "subscriptions": subs,
-            "jobs": jobs, "stop_on_handler_exceptions": False}
+            "jobs": jobs, "stop_on_handler_exceptions": False,
+            "tz_minutes": r.choice([[0], [0], [0, -300, 330], [540, -480, 60]])}
 
 
 def _job(r, rel: bool, depth: int = 0) -> Dict[str, Any]:
